@@ -213,7 +213,56 @@ def implStyles (ops : String) : Option (List Style) :=
         | _ => none
       else none) (decList ',' ops)).map (fun l => l.filterMap id)
 
+def containsSub (pat s : List Char) : Bool :=
+  match s with
+  | [] => pat.isEmpty
+  | _ :: t => Str.isPrefix pat s || containsSub pat t
+
+/-- a top-level date formatter whose zone argument — read whole — is not the text `utc`/`local`
+(input class of the finding `C11/timezone-junk-accepted`; top level only, so that neither an
+inactive group nor a truncating spec can legitimately hide the marker) -/
+def topLevelZoneJunk (pieces : List Piece) : Bool :=
+  pieces.any (fun
+    | .arg n [_, z] _ => (n = cs!"d" || n = cs!"date") && !zoneArgValid z
+    | _ => false)
+
+/-- proposed repair of `C11/deep-nesting-stack-overflow`: a nesting limit in the parser.
+`none` = the code as it is (unbounded recursion). -/
+def nestingLimit : Option Nat := some 64
+
+/-- the deep-nesting family. The model's recursion has no stack: it says what the statement asks
+for (the pattern's meaning, in closed form per shape); an implementation that aborts disagrees AND
+fails the Spec. -/
+def handleDeep (shape : String) (n : Nat) (obs : List String) : Answer :=
+  let marker := encStr (errorMarker eExpectedClose)
+  let tooDeep := match nestingLimit with | some l => decide (n > l) | none => false
+  let model :=
+    if tooDeep then "deep ok 21 0 " ++ marker
+    else if shape = "closed" then "deep ok 1 0 78"
+    else if shape = "h" then "deep ok 1 " ++ toString (2 * n) ++ " 78"
+    else "deep ok 21 0 " ++ marker
+  let impl := " ".intercalate obs
+  let spec :=
+    if (impl.splitOn "ABORT").length > 1 then
+      "FAIL:the process aborted (stack overflow) on a pattern nested " ++ toString n ++ " deep;sig=C11/deep-nesting-stack-overflow"
+    else if (impl.splitOn "PANIC").length > 1 then "FAIL:panic on a deeply nested pattern;sig=C11/deep-nesting-panic"
+    else if impl = model then "ok"
+    else "FAIL:deeply nested pattern rendered wrongly;sig=C11/deep-nesting-meaning"
+  { model, spec, tags := ["deep", "deep-" ++ shape, if n ≥ 3000 then "deep>=3000" else "deep<3000"] }
+
 def handle : Handler := fun cas obs =>
+  match cas.getLast? with
+  | some last =>
+    if last.startsWith "deep:" then
+      match splitOnChar ':' last with
+      | [_, shape, ns] =>
+        match decNat ns with
+        | some n => handleDeep shape n obs
+        | none => badCase "deep"
+      | _ => badCase "deep"
+    else handleOrdinary cas obs
+  | none => badCase "arity"
+where handleOrdinary : Handler := fun cas obs =>
   match decCase cas with
   | none => badCase "case"
   | some c =>
@@ -249,6 +298,8 @@ def handle : Handler := fun cas obs =>
             (if f.masked then ["masked"] else [])
           let trivial := !(c.pattern.any isSpecial)
           let tags := if trivial then "trivial" :: tags else tags
+          let zoneJunk := topLevelZoneJunk pieces
+          let tags := if zoneJunk then "zone-junk" :: tags else tags
           if !missing.isEmpty then
             { model := "need-date:" ++ encStr missing.head! ++ tail, spec := "ok", tags }
           else if !widthsSane c.pattern then
@@ -273,6 +324,9 @@ def handle : Handler := fun cas obs =>
                 match encoded with
                 | .panic _ => "FAIL:panic at encode;sig=C11/invalid-strftime"
                 | _ => "FAIL:panic;sig=C11/panic-unexplained"
+              else if implOutcome = "ok" && zoneJunk &&
+                  !((implText implOps).map (containsSub errOpen)).getD true then
+                "FAIL:a time-zone argument that is not exactly utc/local was accepted without a marker;sig=C11/timezone-junk-accepted"
               else if implOutcome = "ok" then
                 match firstError chunks, implText implOps with
                 | some (pre, e), some txt =>
